@@ -69,7 +69,7 @@ var keyPool = [][]byte{
 	[]byte("0123456789abcdef0123456789abcdef"), // a hash-sized key
 }
 
-var otherValues = [][]byte{{0xab, 0xcd}, {0, 0, 0}, []byte("hello"), {0xff, 0x00, 0xff, 0x00}}
+var otherValues = [][]byte{{0xab, 0xcd}, {0, 0, 0}, []byte("hello"), {0xff, 0x00, 0xff, 0x00}, core.LongValue()}
 var oneByteValues = [][]byte{{0x01}, {0x00}, {0x7f}}
 
 func valTok(v []byte) string { return core.OB(v) }
@@ -412,6 +412,7 @@ func (comp) Gen(prop string, rng *rand.Rand, tier string) *core.History {
 	for _, i := range perm[:nk] {
 		g.alpha = append(g.alpha, keyPool[i])
 	}
+	g.alpha = core.WithLongKeys(rng, g.alpha, 12)
 	if rng.Intn(12) == 0 {
 		g.alpha[0] = []byte{} // the empty key
 	}
@@ -426,7 +427,7 @@ func (comp) Gen(prop string, rng *rand.Rand, tier string) *core.History {
 		g.pend = make([]int, 1)
 	}
 	delay := noTimerDelay
-	nops := 10 + rng.Intn(41)
+	nops := core.LongHistory(rng, 10+rng.Intn(41))
 	if tickHist {
 		delay = 1
 		nops = 8 + rng.Intn(10)
